@@ -90,6 +90,24 @@ def gen_xmlns():
             db = squash(minic.strip_comments(db))
             if "for(i=pctx->ns.count;i>0;--i){if(!pctx->prefix.objs[i-1]){return((constchar*)pctx->ns.objs[i-1])[0]?1:0;}}return0;" not in db:
                 missing.append("xml_default_ns_in_scope: shape")
+    # xml_print_term: the modules of the prefixes inside the value, raw or (repair of F301) through xml_print_ns
+    _, tb = minic.function_source(path, "xml_print_term")
+    tb = squash(minic.strip_comments(tb))
+    raw = 'for(i=1;i<ns_list.count;++i){mod=ns_list.objs[i];ly_print_(pctx->out,"xmlns:%s=\\"",mod->prefix);lyxml_dump_text(pctx->out,mod->ns,1);ly_print_(pctx->out,"\\"");}'
+    via = "for(i=1;i<ns_list.count;++i){mod=ns_list.objs[i];xml_print_ns(pctx,mod->ns,mod->prefix,LYXML_PREFIX_REQUIRED);}"
+    term_ns = via in tb
+    if not term_ns and raw not in tb:
+        missing.append("xml_print_term: namespaces of the value's prefixes of an unknown shape")
+    if "xml_print_node_open(pctx,&node->node);" not in tb or tb.index("xml_print_node_open(pctx,&node->node);") > tb.index("for(i=1;i<ns_list.count;++i)"):
+        missing.append("xml_print_term: order of open tag and value namespaces")
+    # xml_print_meta: REQUIRED for the annotation module and the value modules, a suggestion for the with-defaults attribute
+    _, mb = minic.function_source(path, "xml_print_meta")
+    mb = squash(minic.strip_comments(mb))
+    for what, pat in (("with-defaults attribute", 'ly_print_(pctx->out,"%s:default=\\"true\\"",xml_print_ns(pctx,mod->ns,mod->prefix,0));'),
+                      ("value modules", "for(i=1;i<ns_list.count;++i){mod=ns_list.objs[i];xml_print_ns(pctx,mod->ns,mod->prefix,1);}"),
+                      ("annotation module", 'ly_print_(pctx->out,"%s:%s=\\"",xml_print_ns(pctx,mod->ns,mod->prefix,1),meta->name);')):
+        if pat not in mb:
+            missing.append("xml_print_meta: " + what)
     out = ["-- GENERATED by tools/extractors/xmlns.py from /repo — do not edit. Regenerated on every check run.", "",
            "namespace LyModel.Generated", "",
            "/-- printer_xml.c, xml_print_ns: a suggested prefix that is already bound is replaced by `prefix<k>` (the do/while loop) -/",
@@ -98,6 +116,8 @@ def gen_xmlns():
            "def xmlNsReserved : Bool := %s" % ("true" if reserved else "false"),
            "/-- printer_xml.c, xml_print_opaq_open: `xmlns=\\\"\\\"` is written for an element in no namespace when a default namespace is in scope (F300) -/",
            "def xmlNsUndeclare : Bool := %s" % ("true" if undeclare else "false"),
+           "/-- printer_xml.c, xml_print_term: the modules of the prefixes inside a value are declared through xml_print_ns (F301) -/",
+           "def xmlNsTermNs : Bool := %s" % ("true" if term_ns else "false"),
            "", "end LyModel.Generated", ""]
     if missing:
         out.insert(1, "-- not recognised in this tree: " + "; ".join(missing))
